@@ -9,7 +9,11 @@ EXTRA = {"c01-frag-result-last-datagram": ["C07"], "c08-r3-fragment-glue-le": ["
          "c09-tcp-duplicate-exception-frame": ["C04"], "c02-aa55-checksum-overflow": ["C04", "C01"],
          "c12-r3-battery2-mapped-after-refusal": ["C14", "C15"], "c17-r2-dt-class-level-settings-map": ["C20"],
          "c03-r3-class-level-read-command-cache": ["C20"], "c10-r2-tcp-orphaned-timer-after-fragment": ["C05"],
-         "c07-r2-fragment-timer-handle-dropped": ["C05"], "c06-r2-rtu-short-guard-7": ["C07"], "c12-r7-meter-fallback-wrong-filter": ["C14"]}
+         "c07-r2-fragment-timer-handle-dropped": ["C05"], "c06-r2-rtu-short-guard-7": ["C07"], "c12-r7-meter-fallback-wrong-filter": ["C14"],
+         "c12-r8-battery-map-after-try": ["C14"], "c14-r8-read-sensor-fallback-running-only": ["C16"],
+         "c16-r8-meter-fallback-wrong-filter": ["C14"], "c05-r8-partial-timer-only-if-none": ["C04"],
+         "c08-r8-udp-reject-keeps-socket": ["C15"],
+         "c02-r8-udp-lock-acquire-inside-try": ["C06"], "c07-r8-tcp-lock-acquire-inside-try": ["C06"]}
 only = sys.argv[1:]
 for d in sorted(glob.glob(os.path.join(ROOT, "seeded", "[!_]*"))):
     name = os.path.basename(d)
